@@ -11,11 +11,6 @@ def Coherent (d : Dir) : Prop := ∃ (x : Obj) (mo : Bool), d = expected x mo
 /-- the sentinel promises a complete, coherent cache -/
 def DInv (d : Dir) : Prop := (d .sentinel).isSome → Coherent d
 
-def touchesSentinel : Step → Bool
-  | .write .sentinel _ => true
-  | .remove .sentinel => true
-  | _ => false
-
 theorem apply_sentinel (s : Step) (d : Dir) (h : touchesSentinel s = false) : (s.apply d) .sentinel = d .sentinel := by
   cases s with
   | write f t => cases f <;> simp_all [Step.apply, touchesSentinel]
@@ -58,14 +53,70 @@ theorem C05_full_save (d : Dir) (x : Obj) (mo : Bool) : fullSave Cfg.fixed d x m
   cases mo <;> cases a <;> cases b <;> cases c <;> cases f <;>
     simp [fullSave, saveSteps, optWrite, Cfg.fixed, Step.apply, expected]
 
-/-- **C05_crash_safe (one save)**: whatever the directory held, a `save` that dies after any number of
-effects — optionally inside the next file write — leaves either no sentinel or a complete, coherent cache. -/
-theorem C05_crash_inv (d : Dir) (x : Obj) (mo : Bool) (k : Nat) (torn : Bool) (h : DInv d) :
-    DInv (crashSave Cfg.fixed d x mo k torn) := by
-  unfold crashSave
+/-! ### any plan of effects (`GoodMid`) -/
+
+def targets (f : File) : Step → Bool
+  | .write g _ => decide (g = f)
+  | .remove g => decide (g = f)
+
+theorem apply_other (s : Step) (d : Dir) (f : File) (h : targets f s = false) : (s.apply d) f = d f := by
+  cases s <;> simp_all [Step.apply, targets, eq_comm]
+
+theorem apply_same (s : Step) (d d' : Dir) (f : File) (h : targets f s = true) : (s.apply d) f = (s.apply d') f := by
+  cases s <;> simp_all [Step.apply, targets]
+
+/-- a step list either leaves a file alone or determines it whatever was there before -/
+theorem foldl_touched (l : List Step) (f : File) :
+    (∀ d, (l.foldl Step.apply d) f = d f) ∨ (∀ d d', (l.foldl Step.apply d) f = (l.foldl Step.apply d') f) := by
+  induction l with
+  | nil => left; intro d; rfl
+  | cons s t ih =>
+    rcases ih with h | h
+    · by_cases hs : targets f s = true
+      · right; intro d d'; simp only [List.foldl_cons]; rw [h, h]; exact apply_same s d d' f hs
+      · left; intro d; simp only [List.foldl_cons]; rw [h]; exact apply_other s d f (by simpa using hs)
+    · right; intro d d'; simp only [List.foldl_cons]; exact h _ _
+
+theorem good_no_sentinel (m : List Step) (x : Obj) (mo : Bool) (hg : GoodMid m x mo = true) :
+    ∀ s ∈ m, touchesSentinel s = false := by
+  simp only [GoodMid, Bool.and_eq_true, List.all_eq_true] at hg
+  intro s hs
+  simpa using hg.1 s hs
+
+theorem good_data (m : List Step) (x : Obj) (mo : Bool) (hg : GoodMid m x mo = true) (f : File) (hf : f ≠ .sentinel)
+    (d : Dir) : (m.foldl Step.apply d) f = expected x mo f := by
+  have hall : (m.foldl Step.apply allTorn) f = expected x mo f := by
+    simp only [GoodMid, Bool.and_eq_true, List.all_eq_true, decide_eq_true_eq] at hg
+    exact hg.2 f (by cases f <;> simp_all [dataFiles])
+  rcases foldl_touched m f with h | h
+  · exfalso
+    have := h allTorn
+    rw [hall] at this
+    obtain ⟨t, a, b, c⟩ := x
+    cases f <;> cases mo <;> cases a <;> cases b <;> cases c <;> simp [expected, allTorn] at this
+  · rw [h d allTorn, hall]
+
+/-- **C05_full_save_plan**: a completed save by any good plan leaves exactly the files of that object, whatever
+was there before. -/
+theorem C05_full_save_plan (m : List Step) (x : Obj) (mo : Bool) (hg : GoodMid m x mo = true) (d : Dir) :
+    (wrap m x.tag).foldl Step.apply d = expected x mo := by
+  funext f
+  simp only [wrap, List.foldl_cons, List.foldl_append, List.foldl_nil]
+  by_cases hf : f = .sentinel
+  · subst hf; simp [Step.apply, expected]
+  · have : (Step.apply (List.foldl Step.apply (Step.apply d (Step.remove File.sentinel)) m)
+        (Step.write File.sentinel x.tag)) f = (List.foldl Step.apply (Step.apply d (Step.remove File.sentinel)) m) f := by
+      simp [Step.apply, hf]
+    rw [this]
+    exact good_data m x mo hg f hf _
+
+/-- **C05_crash_inv_plan**: whatever the directory held and in whatever order a good plan rewrites the data
+files, a `save` that dies after any number of effects — optionally inside the next file write — leaves either no
+sentinel or a complete, coherent cache. -/
+theorem C05_crash_inv_plan (d : Dir) (x : Obj) (mo : Bool) (m : List Step) (hg : GoodMid m x mo = true)
+    (k : Nat) (torn : Bool) (h : DInv d) : DInv (crashSteps (wrap m x.tag) d k torn) := by
+  unfold crashSteps wrap
   simp only
-  rw [saveSteps_fixed]
-  set m := mid x mo with hm
   rcases Nat.eq_zero_or_pos k with hk | hk
   · subst hk
     cases torn <;> simpa [Step.tear] using h
@@ -77,11 +128,7 @@ theorem C05_crash_inv (d : Dir) (x : Obj) (mo : Bool) (k : Nat) (torn : Bool) (h
       have hnone : (Step.remove File.sentinel :: (m ++ [Step.write File.sentinel x.tag]))[k]? = none := by
         apply List.getElem?_eq_none; simp; omega
       have hfs : (Step.remove File.sentinel :: (m ++ [Step.write File.sentinel x.tag])).foldl Step.apply d
-          = expected x mo := by
-        have := C05_full_save d x mo
-        unfold fullSave at this
-        rw [saveSteps_fixed] at this
-        exact this
+          = expected x mo := C05_full_save_plan m x mo hg d
       rw [htake, hnone, hfs]
       cases torn <;> exact fun _ => ⟨x, mo, rfl⟩
     · -- strictly inside: the sentinel has been removed and not yet re-created
@@ -93,7 +140,7 @@ theorem C05_crash_inv (d : Dir) (x : Obj) (mo : Bool) (k : Nat) (torn : Bool) (h
         rw [List.take_append_of_le_length (by omega)]
       have hsent : ((Step.remove File.sentinel :: m.take (k - 1)).foldl Step.apply d) .sentinel = none := by
         simp only [List.foldl_cons]
-        rw [foldl_sentinel _ _ (fun s hs => mid_no_sentinel x mo s (List.mem_of_mem_take hs))]
+        rw [foldl_sentinel _ _ (fun s hs => good_no_sentinel m x mo hg s (List.mem_of_mem_take hs))]
         simp [Step.apply]
       rw [htake]
       intro hs
@@ -105,6 +152,20 @@ theorem C05_crash_inv (d : Dir) (x : Obj) (mo : Bool) (k : Nat) (torn : Bool) (h
         cases (Step.remove File.sentinel :: (m ++ [Step.write File.sentinel x.tag]))[k]? with
         | some s => simp only; rw [tear_sentinel, hsent]; simp
         | none => simp [hsent]
+
+/-- the order of the current code is one good plan -/
+theorem mid_good (x : Obj) (mo : Bool) : GoodMid (mid x mo) x mo = true := by
+  obtain ⟨t, a, b, c⟩ := x
+  cases mo <;> cases a <;> cases b <;> cases c <;>
+    simp [GoodMid, mid, optWrite, touchesSentinel, dataFiles, Step.apply, allTorn, expected]
+
+/-- **C05_crash_safe (one save)**, for the order of effects of the current code -/
+theorem C05_crash_inv (d : Dir) (x : Obj) (mo : Bool) (k : Nat) (torn : Bool) (h : DInv d) :
+    DInv (crashSave Cfg.fixed d x mo k torn) := by
+  have := C05_crash_inv_plan d x mo (mid x mo) (mid_good x mo) k torn h
+  unfold crashSave
+  rw [saveSteps_fixed]
+  exact this
 
 /-- a completed save is a special case -/
 theorem C05_save_inv (d : Dir) (x : Obj) (mo : Bool) : DInv (fullSave Cfg.fixed d x mo) := by
@@ -154,6 +215,49 @@ theorem C05_cache_transparent (d0 : Dir) (h0 : d0 .sentinel = none) (src : Obj) 
 theorem C05_load_complete_save (d : Dir) (x : Obj) (mo : Bool) (src : Obj) :
     (readDir Cfg.fixed (fullSave Cfg.fixed d x mo) src).1 = expected x mo := by
   simp [readDir, C05_full_save, expected]
+
+/-! ### histories in which every save uses its own (good) plan -/
+
+theorem C05_read_inv_plan (d : Dir) (src : Obj) (m : List Step) (hg : GoodMid m src false = true) (h : DInv d) :
+    DInv (readDirG d src m).2 := by
+  unfold readDirG
+  split
+  · exact h
+  · simp only; rw [C05_full_save_plan m src false hg]; exact fun _ => ⟨src, false, rfl⟩
+
+/-- **C05_history_inv_plan**: for every history of reads, saves and interrupted saves, each with any good plan of
+effects, starting from a directory without cache, the sentinel promises a complete coherent cache … -/
+theorem C05_history_inv_plan (ops : List GOp) (hg : ∀ op ∈ ops, op.good = true) (d0 : Dir) (h0 : d0 .sentinel = none) :
+    DInv (ops.foldl gstep d0) := by
+  suffices ∀ d, DInv d → DInv (ops.foldl gstep d) from this _ (by intro h; simp [h0] at h)
+  induction ops with
+  | nil => intro d h; exact h
+  | cons op ops ih =>
+    intro d h
+    apply ih (fun o ho => hg o (List.mem_cons_of_mem _ ho))
+    have hop := hg op (by simp)
+    cases op with
+    | read src m => exact C05_read_inv_plan d src m hop h
+    | save x mo m =>
+      simp only [gstep]; rw [C05_full_save_plan m x mo hop]; exact fun _ => ⟨x, mo, rfl⟩
+    | crash x mo m k torn => exact C05_crash_inv_plan d x mo m hop k torn h
+
+/-- **C05_crash_safe_plan**: … hence a read after any such history returns the parse of the source or one complete
+saved object. -/
+theorem C05_crash_safe_plan (ops : List GOp) (hg : ∀ op ∈ ops, op.good = true) (d0 : Dir) (h0 : d0 .sentinel = none)
+    (src : Obj) (m : List Step) : Coherent (readDirG (ops.foldl gstep d0) src m).1 := by
+  have h := C05_history_inv_plan ops hg d0 h0
+  unfold readDirG
+  split
+  · rename_i hs; exact h hs
+  · exact ⟨src, false, rfl⟩
+
+/-- a plan that re-creates the sentinel before the last data file is rejected by `GoodMid`, and for a reason: -/
+example : GoodMid [.write .nodes 2, .write .sentinel 2, .write .elements 2, .write .settings 2] ⟨2, false, false, false⟩ false
+    = false := by decide
+/-- a plan in another order than the current code's is accepted -/
+example : GoodMid [.write .settings 2, .remove .constraints, .write .elements 2, .remove .elemental, .write .nodal 2,
+    .write .nodes 2] ⟨2, true, false, false⟩ false = true := by decide
 
 /-! non-vacuity and the defects of the pinned upstream commit -/
 def A : Obj := ⟨1, true, false, true⟩
